@@ -479,7 +479,10 @@ def _print_parse(facts, res, disp_path, regex_bodies, label):
         kb = facts.body("melda::DeltaId::key")
         if kb is not None:
             t = du_of(kb).local_term(0, 12)
-            ok = contains_call(t, "to_string") and de in [x[2] for x in walk(t) if x[0] == "const" and x[1] == "str"]
+            t = du_of(kb).local_term(0, 44)
+            printed = contains_call(t, "to_string") or any(x[0] == "call" and callee_name(x) == "new_display" and x[2] and
+                                                           any(y[0] == "param" and y[1] == 1 for y in walk(x[2][0])) for x in walk(t))
+            ok = printed and de in [x[2] for x in walk(t) if x[0] == "const" and x[1] == "str"]
             res.instance("P3", "DeltaId::key = to_string() + DELTA_EXTENSION: %s" % ok, kb.loc())
             if not ok:
                 res.violation("P3", "DeltaId::key|shape", "DeltaId::key is not to_string() + DELTA_EXTENSION", kb.loc())
